@@ -14,7 +14,8 @@ EXPLANATION = ("Static rules over models/evse.py and the info cache of charging_
                "specified shape (non-strict bounds each relaxed by atol in the accepting direction, isclose with rtol=0, "
                "default atol 1e-3) and its bounds are the same attributes the class advertises; the finite-rate list is "
                "stored as sorted(set(input) + {0}); every mutation of the EVSE table refreshes the advertised-limit cache, "
-               "whose four fields are built in station order from the like-named EVSE properties.")
+               "whose four fields are built in station order from the like-named EVSE properties."
+               ' Added in round 3: decision table of set_pilot, writers of the occupant and callers of the EVSE-level unplug() are confined, nothing handed to a scheduler aliases the advertised-limit cache (escape analysis shared with C05), per-station accessor table.')
 NOT_DECIDED = "floating-point acceptance at specific boundary values"
 
 CONCRETE = ("EVSE", "DeadbandEVSE", "FiniteRatesEVSE")
